@@ -241,7 +241,10 @@ def run(chk):
         call['other'], _ = gen_fn(rng, d, args, False, rng.randint(0, 2), False)
         call['pred'] = rng.random() < 0.5
         call['index'] = rng.randrange(3)
-      if kind in ('jit', 'remat', 'cond', 'switch') and rng.random() < 0.4:
+      if kind == 'jit' and rng.random() < 0.3:
+        call['shard'] = rng.choice([2, 3])       # in_shardings = StateSharding over 2 or 4 filters, all None
+        call['nkw'] = 0
+      elif kind in ('jit', 'remat', 'cond', 'switch') and rng.random() < 0.4:
         call['wrap'] = rng.choice(['dict', 'list', 'nested'])     # the operands inside one container operand
         call['nkw'] = 0
       calls.append(call)
